@@ -582,3 +582,48 @@ func VerifInfer(n int) {
 		verifExpectOneOf(out, "C09-probe"+verifItoa(i), cls, pr.row, pr.alts())
 	}
 }
+
+// ---- C12: analysis never alters configured builtin signatures ----
+
+type verifPP struct{ prog, probe, name string }
+
+var verifStablePairs = []verifPP{
+	{"x = Sym.u\nq = Sym.a\nz = x * q\n", "w = 2 * 3\ndbtp w\nv = \"s\" * 2\ndbtp v\nf = 1.5 * 2\ndbtp f\n", "multiply-on-union-receiver"},
+	{"a = [Sym.a]\nb = a.first\n", "c = [1].first\ndbtp c\nd = [\"s\"].first\ndbtp d\n", "first-on-symbolic-array"},
+	{"a = [1]\na.push(Sym.a)\n", "b = [2]\nb.push(3)\ndbtp b\n", "push-symbolic-element"},
+	{"x = Sym.u\ny = x + Sym.a\n", "w = 2 + 3\ndbtp w\nv = \"s\" + \"t\"\ndbtp v\n", "plus-on-union-receiver"},
+	{"x = Sym.u\ny = x.to_s\n", "w = 2.to_s\ndbtp w\nv = \"s\".to_s\ndbtp v\n", "to_s-on-union-receiver"},
+	{"a = [Sym.a]\nb = a.pop\nc = a.shift\n", "d = [1].pop\ndbtp d\ne = [1].shift\ndbtp e\n", "pop-shift-on-symbolic-array"},
+	{"h = {k: Sym.a}\nv = h.delete(:k)\nw = h.values\n", "g = {j: 1}\nu = g.values\ndbtp u\nt = g.delete(:j)\ndbtp t\n", "hash-delete-values"},
+	{"a = [Sym.a, Sym.b]\nb = a + [1]\nc = a - [1]\n", "d = [1] + [2]\ndbtp d\ne = [1] - [2]\ndbtp e\n", "array-plus-minus"},
+	{"x = Sym.u\ny = x == Sym.a\nz = x.nil?\n", "w = 2 == 3\ndbtp w\nv = 2.nil?\ndbtp v\n", "compare-on-union-receiver"},
+}
+
+func verifCountLines(s string) int { return strings.Count(s, "\n") }
+
+// VerifBuiltinStable: the probe alone and the probe after a program that calls builtin
+// methods on symbolic / union receivers must report the same types (rows shifted), and the
+// in-memory builtin method table must be unchanged by the program.
+func VerifBuiltinStable(n int) {
+	i := verifapi.Concrete(verifapi.Int("pair", 0, len(verifStablePairs)-1))
+	pp := verifStablePairs[i]
+	var need []string
+	for _, nm := range []string{"a", "b", "u"} {
+		if strings.Contains(pp.prog, "Sym."+nm) {
+			need = append(need, nm)
+		}
+	}
+	s := verifInstallSym(need...)
+	verifapi.WitnessList("Sym.a", verifKN(s.ka))
+	verifapi.WitnessList("Sym.b", verifKN(s.kb))
+	verifapi.WitnessList("Sym.u", verifKN(s.u1), verifKN(s.u2))
+	snap := base.VerifBuiltinSnapshot()
+	mark := verifapi.Snapshot()
+	alone := verifRun(pp.probe)
+	verifapi.Restore(mark)
+	after := verifRun(pp.prog + pp.probe)
+	verifapi.Reach("ran")
+	verifExpectShift("C12-probe", "C12/probe-type-depends-on-earlier-program/"+pp.name, pp.probe, pp.prog+pp.probe, alone, after, 1, verifCountLines(pp.prog))
+	verifapi.Classify("C12/builtin-method-table-altered/" + pp.name)
+	verifapi.Assert(base.VerifBuiltinUnchanged(snap), "C12-table")
+}
